@@ -8,7 +8,7 @@ claim('C16',
   design='5.16')
 claim('C19',
   text='Machine-checked theorems (Coq 8.16, closed under the global context), for all strings: buffer-level models of qstrtrim/_head/_tail, qstrunchar, qstrreplace (tn/tr/sn/sr), '
-       'qstrcpy, qstrncpy, qstrdup_between, qmemdup, qstrgets, qstrrev, qstrupper, qstrlower, qstrtok, qstrtokenizer equal plain reference definitions on lists (drop-while trimming, '
+       'qstrcpy, qstrncpy, qstrdup_between, qmemdup, qstrgets, qstrrev, qstrupper, qstrlower, qstrtok, qstrtokenizer (and, as an extra, qstr_comma_number for every int) equal plain reference definitions on lists (drop-while trimming, '
        'flat_map token replace, leftmost non-overlapping string replace which is also shown to be the unique output of a declarative relation, firstn(size-1)++[0] copies, '
        'split-on-delimiters with the documented missing empty last field, line up to LF without CRs within size-1 characters), and every read/write of the model stays inside the '
        'buffer the contract covers (strlen+1 bytes for in-place routines, size bytes for the bounded copies and qstrgets, maxstrlen+1 bytes for the replace output: '
@@ -19,7 +19,7 @@ claim('C19',
   note='Trusted: Coq kernel, extraction (ExtrOcamlBasic only), gcc, harness/h_str.c (guard pages, --wrap=malloc,free in the harness build only), ocaml/d_str.ml, checks/c19.py. '
        'char is signed (x86-64); lengths below 2^31 (int maxstrlen/len/offset in the C code are unbounded in the model). Contract preconditions in the theorems: non-empty search string in '
        'string mode (empty: division by zero or endless loop, witnessed by C19_replace_sn_empty_token_refuted), size >= 1 for qstrgets, nbytes within the source array for qstrncpy, '
-       'offset within the string for qstrtok. Overlapping src/dst of qstrcpy/qstrncpy, qstrdupf, qstrcatf, qstrunique, qstr_conv_encoding, qstr_comma_number, qstrtest, '
+       'offset within the string for qstrtok. Overlapping src/dst of qstrcpy/qstrncpy, qstrdupf, qstrcatf, qstrunique, qstr_conv_encoding, qstrtest, '
        'qstr_is_email, qstr_is_ip4addr are not modelled. Model tied to code by differential execution, not by a C semantics.',
   technique='Rocq proof by induction over buffer-level loop models (indices in Z, out-of-buffer access = Crash) + finite byte sweeps (vm_compute) for the signed-char case maps; extracted-model and extracted-spec correspondence on bounded-exhaustive and random inputs',
   design='5.19')
